@@ -395,3 +395,44 @@ End Pipelines.
    arrival order) is such a store *)
 Lemma store_of_rows : forall kvs k, get (store_of kvs) k = vals_of k kvs.
 Proof. intros. apply get_store_of. Qed.
+
+(* ---------------------------------------------------------------- every compilation has a dump *)
+Definition bytes_dec : forall a b : bytes, {a = b} + {a <> b} := list_eq_dec N.eq_dec.
+Definition dump_of_keys (db : Model.Batch.store) (keys : list bytes) : Model.Store.store :=
+  map (fun k => (k, vals db k))
+      (filter (fun k => match db k with Some _ => true | None => false end) (nodup bytes_dec keys)).
+
+Lemma dump_of_keys_ok : forall db keys, (forall k, db k <> None -> In k keys) -> rdb_dump db (dump_of_keys db keys).
+Proof.
+  intros db keys H. unfold rdb_dump, dump_of_keys. split.
+  - rewrite map_map. cbn [fst]. rewrite map_id. apply NoDup_filter, NoDup_nodup.
+  - intros k v. rewrite in_map_iff. split.
+    + intros (k' & E & Hin). inversion E; subst. apply filter_In in Hin as [_ Hin].
+      split; [|reflexivity]. destruct (db k); [discriminate | discriminate Hin].
+    + intros [Hk ->]. exists k. split; [reflexivity|]. apply filter_In. split.
+      * apply nodup_In. apply H. exact Hk.
+      * destruct (db k); [reflexivity | contradiction].
+Qed.
+
+(* the keys of a compiled database are keys of the codec's records, so the enumeration over them is a dump *)
+Lemma compiled_support : forall (line : Type) conv accum feature (f : list line) db,
+  store_ok db -> (forall k, Permutation (vals db k) (spec_compile line conv accum feature f k)) ->
+  forall k, db k <> None -> In k (map fst (records line conv accum feature f)).
+Proof.
+  intros line conv accum feature f db OK Hv k Hk.
+  destruct (store_ok_get db k OK) as (_ & _ & Hn).
+  assert (Hne : vals db k <> []) by (intros X; apply Hk, Hn; exact X).
+  specialize (Hv k). unfold spec_compile in Hv.
+  destruct (vals_of k (records line conv accum feature f)) as [|v t] eqn:E.
+  - apply Permutation_sym, Permutation_nil in Hv. contradiction.
+  - apply in_map_iff. exists (k, v). split; [reflexivity|]. apply vals_of_in. rewrite E. left. reflexivity.
+Qed.
+
+Theorem rdb_dump_exists : forall (line : Type) conv accum feature (f : list line) db,
+  feature <> [] -> kvs_ok (records line conv accum feature f) -> rdb_compilation line conv accum feature f db ->
+  rdb_dump db (dump_of_keys db (map fst (records line conv accum feature f))).
+Proof.
+  intros line conv accum feature f db NF KV C.
+  destruct (rdb_compilation_lossless line conv accum feature f db NF KV C) as [OK Hv].
+  apply dump_of_keys_ok. apply (compiled_support line conv accum feature f db OK Hv).
+Qed.
